@@ -59,27 +59,33 @@ def attrsRules (expected got : List Attr) : Option String :=
   else if !(got.all fun g => expected.any fun x => x.key == g.key && x.value == g.value) then some "attribute_value_changed"
   else none
 
+/-- the protected header as both decoders see it -/
+def jwsDecoded (e : Jws.Env) : Option (List Jws.Member × Jws.Hdr) :=
+  match Jws.membersOf e.prot with
+  | some ms => (Jws.decodeHdr ms {}).map (fun h => (ms, h))
+  | none => none
+
+/-- what must be true of an envelope `Verify` accepted -/
+def jwsSigClause (e : Jws.Env) (viaVerify : Bool) : Option String :=
+  if !viaVerify then none
+  else if e.protDot || e.payDot || e.sigDot then some "verified_with_ambiguous_compact_form"
+  else match e.x5c with
+    | some _ :: _ =>
+      match tableRowOfKey e.leafKey with
+      | none => some "verified_with_unapproved_key"
+      | some row =>
+        match e.prot with
+        | .obj ms =>
+          if Jws.jwtAlg ms != some row.2.2.1 then some "declared_algorithm_is_not_the_key's"
+          else if e.sigok.lookup row.2.2.1 != some true then some "verified_but_leaf_key_did_not_sign_these_bytes"
+          else none
+        | _ => some "verified_without_protected_header"
+    | _ => some "verified_without_parseable_leaf"
+
 /-- everything checked on a JWS content the implementation returned (`viaVerify`: from Verify) -/
 def jws (prop : String) (e : Jws.Env) (exact : Jws.Member → String) (ci : ChainInfo) (viaVerify : Bool) (c : Content) : Option String :=
-  let decoded : Option (List Jws.Member × Jws.Hdr) :=
-    match Jws.membersOf e.prot with
-    | some ms => (Jws.decodeHdr ms {}).map (fun h => (ms, h))
-    | none => none
-  let sigClause : Option String :=
-    if !viaVerify then none
-    else if e.protDot || e.payDot || e.sigDot then some "verified_with_ambiguous_compact_form"
-    else match e.x5c with
-      | some _ :: _ =>
-        match tableRowOfKey e.leafKey with
-        | none => some "verified_with_unapproved_key"
-        | some row =>
-          match e.prot with
-          | .obj ms =>
-            if Jws.jwtAlg ms != some row.2.2.1 then some "declared_algorithm_is_not_the_key's"
-            else if e.sigok.lookup row.2.2.1 != some true then some "verified_but_leaf_key_did_not_sign_these_bytes"
-            else none
-          | _ => some "verified_without_protected_header"
-      | _ => some "verified_without_parseable_leaf"
+  let decoded := jwsDecoded e
+  let sigClause := jwsSigClause e viaVerify
   match prop with
   | "C01" =>
     match sigClause with
@@ -138,19 +144,22 @@ def coseCritRules (e : Cose.Env) (c : Content) : Option String :=
   else if !(crit.all fun l => (Cose.get e.prot l).isSome) then some "critical_label_not_present"
   else none
 
+/-- what must be true of an envelope `Verify` accepted -/
+def coseSigClause (e : Cose.Env) (viaVerify : Bool) : Option String :=
+  if !viaVerify then none
+  else match e.x5c with
+    | some (.bytes (some _) :: _) =>
+      match tableRowOfKey e.leafKey with
+      | none => some "verified_with_unapproved_key"
+      | some row =>
+        if Cose.headerAlg e != some row.2.2.2.1 then some "declared_algorithm_is_not_the_key's"
+        else if e.payloadNil then some "verified_without_payload"
+        else if !e.sigok then some "verified_but_leaf_key_did_not_sign_these_bytes"
+        else none
+    | _ => some "verified_without_parseable_leaf"
+
 def cose (prop : String) (e : Cose.Env) (ci : ChainInfo) (viaVerify : Bool) (c : Content) : Option String :=
-  let sigClause : Option String :=
-    if !viaVerify then none
-    else match e.x5c with
-      | some (.bytes (some _) :: _) =>
-        match tableRowOfKey e.leafKey with
-        | none => some "verified_with_unapproved_key"
-        | some row =>
-          if Cose.headerAlg e != some row.2.2.2.1 then some "declared_algorithm_is_not_the_key's"
-          else if e.payloadNil then some "verified_without_payload"
-          else if !e.sigok then some "verified_but_leaf_key_did_not_sign_these_bytes"
-          else none
-      | _ => some "verified_without_parseable_leaf"
+  let sigClause := coseSigClause e viaVerify
   match prop with
   | "C01" =>
     match sigClause with
